@@ -31,7 +31,7 @@ struct C11 : Scenario {
   std::shared_ptr<Pipe> in; std::shared_ptr<Sink> out; int lpid = 0, newupid = 0; size_t outpos = 0; bool lspawn_started = false; bool greeted = false;
   std::vector<std::string> locals; size_t next = 0; std::string cur; bool have_cur = false; bool eof_sent = false;
   struct Seen { std::vector<std::string> argv; int uid, gid; std::vector<int> groups; std::vector<std::string> idlog; }; std::vector<Seen> execs;
-  int faults = 0; std::string fam; long cdb_cut = -1;
+  int faults = 0; std::string fam; long cdb_cut = -1; const char *pw_opt = ""; int pw_missing = 0;
   C11(const Config &c) : cfg(c) { fam = c.get("family", "tables"); }
 
   void setup(World &w) override {
@@ -43,6 +43,18 @@ struct C11 : Scenario {
     U("joe-sub", 610, 611, "/home/joesub", 610); U("zaz", 620, 621, "/home/zaz", 620);
     k.put_file(QmailEnv::messpath(123), "Subject: x\n\nbody\n", 0644, UID_QMAILQ, GID_QMAIL);
     w.exectab["/var/qmail/bin/qmail-local"] = "@qmail-local";
+    if (fam == "pw2u") {
+      // the table generator: the real qmail-pw2u with each option on a password file; an account may only get a table entry if it is not root and
+      // (unless -H) its home directory exists and is its own -- whatever else the options change
+      static const char *optv[] = {"", "-o", "-h", "-H", "-u", "-C", "-/", "-hu", "-c+"}; pw_opt = optv[w.ex->choose_n(9, BK_FREE)]; pw_missing = w.ex->choose_n(2, BK_FREE);
+      struct A { const char *n; int uid, gid; const char *home; }; static const A acc[] = {{"alias", UID_ALIAS, GID_NOFILES, "/var/qmail/alias"}, {"joe", 507, 100, "/home/joe"}, {"bob", 508, 100, "/home/bob"}, {"nohome", 509, 100, "/home/nohome"}, {"toor", 0, 0, "/toor"}, {"Mixed", 510, 511, "/home/mixed"}, {"zaz", 620, 621, "/home/zaz"}, {"wrap", 0, 100, "/home/wrapx"}};
+      std::string input; for (auto &a : acc) { if (std::string(a.n) == "nohome" && !pw_missing) continue; std::string uidtxt = std::string(a.n) == "wrap" ? "4294967296" : std::to_string(a.uid); input += std::string(a.n) + ":x:" + uidtxt + ":" + std::to_string(a.gid) + ":gecos:" + a.home + ":/bin/sh\n"; }
+      k.mkdir_p("/home/wrapx", 0755, 0, 100);
+      tabname = std::string("qmail-pw2u ") + pw_opt + (pw_missing ? " (one home directory is missing)" : "");
+      std::map<int, int> fds; fds[0] = QmailEnv::preloaded_pipe(w, input); fds[1] = QmailEnv::sink(w, &out); fds[2] = QmailEnv::nullfd(w);
+      std::vector<std::string> av = {"qmail-pw2u"}; if (*pw_opt) av.push_back(pw_opt);
+      newupid = w.spawn("/var/qmail/bin/qmail-pw2u", av, fds, 0, 0, "/"); return;
+    }
     auto pool = line_pool();
     if (fam == "tables") {
       // every subset of size <= 3 of the pool (and "no users/assign at all")
@@ -135,6 +147,7 @@ struct C11 : Scenario {
   }
 
   bool on_quiescent(World &w) override {
+    if (fam == "pw2u") return false;
     if (!lspawn_started) {
       Proc *np = nullptr; for (auto &pp : w.procs) if (pp && pp->vpid == newupid) np = pp.get();
       int code = np ? np->status : -1;
@@ -146,7 +159,8 @@ struct C11 : Scenario {
     else verify(w);
     have_cur = false;
     if (eof_sent) return false;
-    if (next >= locals.size() || (fam != "tables" && next >= 8)) { in->writers = 0; eof_sent = true; return true; }
+    if (next >= locals.size() || (fam != "tables" && next >= 8) || (fam == "update" && next >= 2)) { in->writers = 0; eof_sent = true; return true; }
+    if (fam == "update") { run_newu(w); w.counters["table_rebuilt_during_lookup"]++; }   // the administrator runs qmail-newu again (same table) while this delivery is looked up: old or new file, never none
     cur = locals[next++]; have_cur = true;
     std::string c; c.push_back((char) 7); c += "8/123"; c.push_back('\0'); c += "sender@src.example"; c.push_back('\0'); c += cur + "@host.example"; c.push_back('\0');
     in->buf += c;
@@ -174,7 +188,26 @@ struct C11 : Scenario {
     if (st.op == VK_FORK && st.ret >= 0) { for (auto &c : w.procs) if (c && c->vpid == (int) st.a[0]) c->idlog.clear(); }
   }
   std::string script(World &, Proc &) override { std::string a; int v = VKA_EXIT; a.append((char *) &v, 4); v = 0; a.append((char *) &v, 4); return a; }
+  void end_pw2u(World &w) {
+    Proc *p = nullptr; for (auto &pp : w.procs) if (pp && pp->vpid == newupid) p = pp.get();
+    std::string o = pw_opt; bool H = o.find('H') != std::string::npos, h = o.find('h') != std::string::npos, u = o.find('u') != std::string::npos; std::string key = "C11:" + tabname;
+    int code = p ? p->status : -1; w.counters["pw2u_runs"]++;
+    if (h && !H && pw_missing) { if (code != (111 << 8)) w.soft_violation(key, tabname + ": a home directory does not exist and -h was given; documented: stop with an error, got status " + std::to_string(code)); w.outcome_hash = fnvs(5, tabname); w.description = tabname; return; }
+    if (code != 0) { w.soft_violation(key, tabname + ": exit status " + std::to_string(code)); return; }
+    std::set<std::string> got, want; size_t i = 0; const std::string &d = out->data;
+    while (i < d.size()) { size_t e = d.find('\n', i); if (e == std::string::npos) e = d.size(); std::string l = d.substr(i, e - i); i = e + 1; if (l.size() > 1 && l[0] == '=') { size_t c = l.find(':'); std::string name = l.substr(1, c - 1); got.insert(name);
+        // the entry's identity fields must be the account's own
+        std::vector<std::string> f; size_t a = c + 1; while (f.size() < 4) { size_t b = l.find(':', a); if (b == std::string::npos) break; f.push_back(l.substr(a, b - a)); a = b + 1; }
+        if (f.size() == 4 && f[0] != name) w.soft_violation(key + ":" + name, tabname + ": entry for " + name + " names user " + f[0]); } }
+    struct A { const char *n; unsigned long uid; const char *home; bool exists; unsigned long owner; }; A acc[] = {{"alias", UID_ALIAS, "/var/qmail/alias", true, UID_ALIAS}, {"joe", 507, "/home/joe", true, 507}, {"bob", 508, "/home/bob", true, 0}, {"nohome", 509, "/home/nohome", false, 0}, {"toor", 0, "/toor", true, 0}, {"Mixed", 510, "/home/mixed", true, 510}, {"zaz", 620, "/home/zaz", true, 620}, {"wrap", 4294967296UL, "/home/wrapx", true, 0}};
+    for (auto &a : acc) { if (std::string(a.n) == "nohome" && !pw_missing) continue; if (!a.uid) continue; bool upper = false; for (const char *c = a.n; *c; c++) if (*c >= 'A' && *c <= 'Z') upper = true; if (upper && !u) continue;
+      if (!H) { if (!a.exists) continue; if (a.owner != a.uid) continue; } want.insert(a.n); }
+    for (auto &n : got) if (!want.count(n)) w.soft_violation(key + ":" + n, tabname + ": account " + n + " got a table entry; documented: skipped (root, upper case without -u, or a home directory that is missing or not its own without -H)");
+    for (auto &n : want) if (!got.count(n)) w.soft_violation(key + ":" + n, tabname + ": account " + n + " got no table entry");
+    w.counters["pw2u_accounts_checked"] += want.size(); w.outcome_hash = fnvs(5, tabname + d); w.description = tabname + " -> " + std::to_string(got.size()) + " accounts";
+  }
   void at_end(World &w) override {
+    if (fam == "pw2u") { end_pw2u(w); return; }
     Proc *p = nullptr; for (auto &pp : w.procs) if (pp && pp->vpid == lpid) p = pp.get();
     if (lspawn_started && (!p || p->st != P_ZOMBIE || p->status != 0)) w.soft_violation("C11:lspawn-exit", "qmail-lspawn did not exit 0 at end of input");
     w.outcome_hash = fnvs(3, tabname) ^ (uint64_t) (cdb_cut + 1) ^ w.trace_hash; w.description = "table {" + tabname + "}" + (cdb_cut >= 0 ? " cdb cut at " + std::to_string(cdb_cut) : "") + ", " + std::to_string(next) + " local parts";
